@@ -67,8 +67,8 @@ type Job struct {
 	Prefix  []int           `json:"prefix,omitempty"`
 	PrefixN []int           `json:"prefix_n,omitempty"`
 	Used    int             `json:"used,omitempty"`
-	Expand  bool            `json:"expand,omitempty"` // run the root only and return the children
-	Budget  float64         `json:"budget_s,omitempty"` // informational
+	Expand  bool            `json:"expand,omitempty"`        // run the root only and return the children
+	Budget  float64         `json:"budget_s,omitempty"`      // informational
 	Until   int64           `json:"until_unix_ms,omitempty"` // absolute deadline of the tier budget
 	Extra   json.RawMessage `json:"extra,omitempty"`
 	Trace   bool            `json:"trace,omitempty"`
@@ -76,22 +76,22 @@ type Job struct {
 
 // JobResult is what a worker reports.
 type JobResult struct {
-	Execs     int            `json:"execs"`
-	Steps     int            `json:"steps"`
-	States    int            `json:"states"`
-	Outcomes  map[string]int `json:"outcomes,omitempty"`
-	Viols     []Violation    `json:"viols,omitempty"`
-	Children  []Job          `json:"children,omitempty"`
-	Horizons  int            `json:"horizons,omitempty"`
-	Cut       bool           `json:"cut,omitempty"` // budget exhausted before the subtree was finished
-	Err       string         `json:"err,omitempty"` // hard error (nondeterminism, harness bug): exit 2
-	Samples   []string       `json:"samples,omitempty"`
+	Execs     int             `json:"execs"`
+	Steps     int             `json:"steps"`
+	States    int             `json:"states"`
+	Outcomes  map[string]int  `json:"outcomes,omitempty"`
+	Viols     []Violation     `json:"viols,omitempty"`
+	Children  []Job           `json:"children,omitempty"`
+	Horizons  int             `json:"horizons,omitempty"`
+	Cut       bool            `json:"cut,omitempty"` // budget exhausted before the subtree was finished
+	Err       string          `json:"err,omitempty"` // hard error (nondeterminism, harness bug): exit 2
+	Samples   []string        `json:"samples,omitempty"`
 	Extra     json.RawMessage `json:"extra,omitempty"`
-	Replays   int            `json:"replays,omitempty"` // determinism self-checks performed
-	Pruned    int            `json:"pruned,omitempty"`  // subtrees not expanded (no-op excursions of spinning threads)
-	CacheHits int            `json:"cache_hits,omitempty"`
-	MaxDepth  int            `json:"max_depth,omitempty"`
-	Trace     []vrt.OpRec    `json:"trace,omitempty"`
+	Replays   int             `json:"replays,omitempty"` // determinism self-checks performed
+	Pruned    int             `json:"pruned,omitempty"`  // subtrees not expanded (no-op excursions of spinning threads)
+	CacheHits int             `json:"cache_hits,omitempty"`
+	MaxDepth  int             `json:"max_depth,omitempty"`
+	Trace     []vrt.OpRec     `json:"trace,omitempty"`
 }
 
 // ---------------------------------------------------------------------------------------------
